@@ -597,6 +597,37 @@ def applyMut (h : Heap) (o : Obj) (m : Mut) : Heap :=
   | some c => fun x => if x = c then m.val else h x
   | none => h
 
+/-- The separately stored (and separately copied) components of a field that the writer may
+touch on its working copy.  Each is one cell of the object graph; `Field.copy()` must give
+every one of them a fresh cell — also those nested inside a compressed array, which are
+copied by the array class's own `__init__` (`GatheredArray`, `RaggedContiguousArray`, …),
+not by `Field.copy` itself. -/
+inductive Part
+  | fieldNames | fieldProps | dataArray
+  | listVar | countVar | indexVar                    -- inside gathered / ragged arrays
+  | tiePointIndex | interpParam                      -- inside subsampled arrays
+  | consNames | consData | boundsNames | boundsData
+  | nodeCount | partNodeCount | interiorRing         -- geometries
+  | domainAxes
+deriving Repr, DecidableEq, Inhabited
+
+def Part.pos : Part → Nat
+  | .fieldNames => 0 | .fieldProps => 1 | .dataArray => 2 | .listVar => 3 | .countVar => 4 | .indexVar => 5
+  | .tiePointIndex => 6 | .interpParam => 7 | .consNames => 8 | .consData => 9 | .boundsNames => 10
+  | .boundsData => 11 | .nodeCount => 12 | .partNodeCount => 13 | .interiorRing => 14 | .domainAxes => 15
+
+def Part.all : List Part :=
+  [.fieldNames, .fieldProps, .dataArray, .listVar, .countVar, .indexVar, .tiePointIndex, .interpParam, .consNames,
+   .consData, .boundsNames, .boundsData, .nodeCount, .partNodeCount, .interiorRing, .domainAxes]
+
+/-- what the caller sees of one component -/
+def partView (h : Heap) (o : Obj) (p : Part) : Option Nat := (o[p.pos]?).map h
+
+/-- `_write_list_variable` (netcdfwrite.py ~862): `nc_set_variable(list_variable, ncvar)`. -/
+def renameListVariable (ncvar : Nat) : Mut := ⟨Part.listVar.pos, ncvar⟩
+/-- the writer's `insert_dimension` / `squeeze` on its working copy -/
+def reshapeData (v : Nat) : Mut := ⟨Part.dataArray.pos, v⟩
+
 /-- The writer: copy, then the first `k` mutations (an exception may stop it anywhere). -/
 def writerRun (h : Heap) (next : Nat) (o : Obj) (shared : List Nat) (prog : List Mut) (k : Nat) : Heap :=
   (prog.take k).foldl (fun hh m => applyMut hh (copyCells next o shared) m) (copyHeap h next o shared)
